@@ -217,6 +217,30 @@ def peer_gone_rule(run):
               'write_some_impl no longer fails when the route to the peer is empty: after the peer hung up a write is accepted and then waits forever for the window', 'an empty route to the peer fails the write with not_connected')
 
 
+def channel_end_identity_rule(run):
+    """channel::remote_idx()/self_idx() tell the two ends of a connection apart by comparing the WHOLE endpoint stored for
+    each end with the caller's own: comparing a part (the port, the address) picks the wrong end as soon as both ends
+    agree in that part - a connector bound to the listener's port number then takes itself for the acceptor, reads its own
+    writes and reports its own endpoint as the peer's."""
+    fx = run.fx
+    run.clause('the two ends of a channel are told apart by their whole endpoints (shared C05/C07/C09)')
+    n = 0
+    for nm in ('remote_idx', 'self_idx'):
+        f = fx.fn1(CH + '::' + nm)
+        run.touch(f)
+        pn = f.params[0].get('name') if f.params else None
+        cmps = [x for x in f.all_nodes() if q.cmp_atom(x) and q.cmp_atom(x)[0] in ('==', '!=')]
+        for x in cmps:
+            sides = [q.render(f, q.strip_casts(y)).replace('this->', '') for y in q.cmp_atom(x)[1:]]
+            n += 1
+            whole = any(t_ == pn for t_ in sides) and any(t_.startswith('ep[') and t_.endswith(']') for t_ in sides)
+            run.check(whole, 'R5', 'channel-end-by-whole-endpoint', '%s: %s' % (f.norm, q.render(f, x)[:50]), f.loc(x),
+                      'channel::%s() decides which end the caller is by comparing %s: a part of the endpoint, or something else than the stored endpoint of an end with the caller\'s own - when connector and acceptor agree in that part (same port number on different addresses) the wrong end is chosen: the accepted socket sends to itself and remote_endpoint() reports its own endpoint' % (nm, ' with '.join(sides)),
+                      'ep[i] compared with the caller\'s whole endpoint')
+    if n < 4:
+        run.broke('channel::remote_idx/self_idx: fewer than 4 endpoint comparisons found (%d)' % n)
+
+
 def acceptor_reopen_rule(run):
     """socket::open() closes the socket first, but with static binding: re-opening an OPEN acceptor through the inherited
     open() runs socket::close(), not acceptor::close(), so the listen state and the accept queue survive. The acceptor
@@ -465,6 +489,7 @@ def check(run):
     accept_queue_drained_rule(run)
     abandoned_connect_rules(run)
     peer_gone_rule(run)
+    channel_end_identity_rule(run)
     run.clause('an accept is outstanding exactly while a handler slot is set: the hand-out in check_accept_queue is decided by the handler slots (shared with C06/C16)')
     import p06 as _p06
     _p06.accept_queue_rules(run)
